@@ -5,6 +5,7 @@ import (
 	"encoding/json"
 	"fmt"
 	"math/big"
+	"math/rand"
 	"regexp"
 	"sort"
 	"strings"
@@ -114,6 +115,202 @@ func specCompare(a, b specVer) int {
 	return 1
 }
 
+// c04Branch names the decision of the SemVer precedence rule that settles the comparison of
+// two strings (for the measured distribution only).
+func c04Branch(a, b specVer) string {
+	switch {
+	case !a.ok && !b.ok:
+		return "both-invalid"
+	case !a.ok || !b.ok:
+		return "one-invalid"
+	}
+	long := func(x, y string) string {
+		if len(x) > 19 || len(y) > 19 {
+			return "-over64bit"
+		}
+		return ""
+	}
+	for i, p := range [][2]string{{a.major, b.major}, {a.minor, b.minor}, {a.patch, b.patch}} {
+		if p[0] != p[1] {
+			k := "len"
+			if len(p[0]) == len(p[1]) {
+				k = "lex"
+			}
+			return []string{"major", "minor", "patch"}[i] + "-" + k + long(p[0], p[1])
+		}
+	}
+	if a.pre == b.pre {
+		return "equal"
+	}
+	if a.pre == "" || b.pre == "" {
+		return "pre-vs-none"
+	}
+	xs := strings.Split(a.pre[1:], ".")
+	ys := strings.Split(b.pre[1:], ".")
+	for i := 0; i < len(xs) && i < len(ys); i++ {
+		x, y := xs[i], ys[i]
+		if x == y {
+			continue
+		}
+		nx, ny := allDigits.MatchString(x), allDigits.MatchString(y)
+		switch {
+		case nx && ny && len(x) != len(y):
+			return "ident-num-len" + long(x, y)
+		case nx && ny:
+			return "ident-num-lex" + long(x, y)
+		case nx != ny:
+			return "ident-num-vs-alpha"
+		default:
+			return "ident-alpha"
+		}
+	}
+	return "ident-prefix"
+}
+
+func c04Shape(s specVer) string {
+	if !s.ok {
+		return "invalid"
+	}
+	k := []string{"full", "vX.Y", "vX"}[s.short]
+	if s.pre != "" {
+		k += "+pre"
+	}
+	if s.build != "" {
+		k += "+build"
+	}
+	return k
+}
+
+// c04VaryNum returns a numeral close to n: same length, one digit longer, far beyond 64 bits,
+// or unrelated.
+func c04VaryNum(r *rand.Rand, n string) string {
+	switch r.Intn(5) {
+	case 0, 1:
+		b := []byte(n)
+		i := r.Intn(len(b))
+		b[i] = byte('0' + r.Intn(10))
+		if b[0] == '0' && len(b) > 1 {
+			b[0] = '1'
+		}
+		return string(b)
+	case 2:
+		if n == "0" {
+			return "10"
+		}
+		return n + string(rune('0'+r.Intn(10)))
+	case 3:
+		if n == "0" {
+			n = "7"
+		}
+		return n + "00000000000000000000"[:12+r.Intn(8)] + string(rune('0'+r.Intn(10)))
+	default:
+		return gen.Numeral(r, false)
+	}
+}
+
+func c04VaryIdent(r *rand.Rand, id string) string {
+	if allDigits.MatchString(id) && (id == "0" || id[0] != '0') {
+		switch r.Intn(4) {
+		case 0, 1:
+			return c04VaryNum(r, id)
+		case 2:
+			return id + "a"
+		default:
+			return gen.Ident(r, false, false)
+		}
+	}
+	switch r.Intn(4) {
+	case 0:
+		b := []byte(id)
+		b[r.Intn(len(b))] = "0aZ-9b"[r.Intn(6)]
+		if allDigits.Match(b) && len(b) > 1 && b[0] == '0' {
+			b[0] = 'x'
+		}
+		return string(b)
+	case 1:
+		return id + string("0aZ-"[r.Intn(4)])
+	case 2:
+		return gen.Numeral(r, false)
+	default:
+		return gen.Ident(r, false, false)
+	}
+}
+
+// c04Related returns a version that agrees with v on all fields before a randomly chosen
+// one and differs there, so that every level of the precedence rule gets to decide.
+func c04Related(r *rand.Rand, v string) string {
+	s := specParse(v)
+	if !s.ok || r.Intn(8) == 0 {
+		return gen.RelatedVersion(r, v)
+	}
+	var pre []string
+	if s.pre != "" {
+		pre = strings.Split(s.pre[1:], ".")
+	}
+	build := s.build
+	switch k := r.Intn(13); {
+	case k == 0:
+		s.major = c04VaryNum(r, s.major)
+	case k <= 2:
+		s.minor = c04VaryNum(r, s.minor)
+	case k <= 4:
+		s.patch = c04VaryNum(r, s.patch)
+	case k == 5:
+		if pre == nil {
+			pre = []string{gen.Ident(r, false, false)}
+		} else {
+			pre = nil
+		}
+	case k <= 8:
+		if pre == nil {
+			pre = []string{gen.Ident(r, false, false), gen.Ident(r, false, false)}
+		}
+		i := r.Intn(len(pre))
+		pre = append([]string(nil), pre...)
+		pre[i] = c04VaryIdent(r, pre[i])
+	case k == 9:
+		if len(pre) > 1 && r.Intn(2) == 0 {
+			pre = pre[:len(pre)-1]
+		} else if pre != nil {
+			pre = append(append([]string(nil), pre...), gen.Ident(r, false, false))
+		}
+	case k <= 11:
+		if build == "" || r.Intn(2) == 0 {
+			build = "+" + gen.Ident(r, false, true)
+		} else {
+			build = ""
+		}
+	}
+	p := ""
+	if pre != nil {
+		p = "-" + strings.Join(pre, ".")
+	}
+	if p == "" && build == "" && s.patch == "0" && r.Intn(3) == 0 {
+		if s.minor == "0" && r.Intn(2) == 0 {
+			return "v" + s.major
+		}
+		return "v" + s.major + "." + s.minor
+	}
+	return "v" + s.major + "." + s.minor + "." + s.patch + p + build
+}
+
+// c04NumIdentPair returns two versions that differ first in a numeric prerelease identifier.
+func c04NumIdentPair(r *rand.Rand) (string, string) {
+	base := "v" + gen.Numeral(r, false) + "." + gen.Numeral(r, false) + "." + gen.Numeral(r, false) + "-"
+	for i := r.Intn(3); i > 0; i-- {
+		base += gen.Ident(r, false, false) + "."
+	}
+	x := gen.Numeral(r, false)
+	y := c04VaryNum(r, x)
+	tail := func() string {
+		if r.Intn(2) == 0 {
+			return "." + gen.Ident(r, false, false)
+		}
+		return ""
+	}
+	return base + x + tail(), base + y + tail()
+}
+
 type c04In struct {
 	Op string   `json:"op"`
 	V  []string `json:"v_hex"`
@@ -217,12 +414,22 @@ func runC04(c *hx.Ctx) {
 	r := c.Rng
 	draw := func() string {
 		switch k := r.Intn(20); {
-		case k < 14:
+		case k < 15:
 			return gen.Version(r)
 		case k < 18:
 			return gen.Mutate(r, gen.Version(r), "v.0-+aA91")
+		case k < 19:
+			// two edits: still close to the grammar
+			return gen.Mutate(r, gen.Mutate(r, gen.Version(r), "v.0-+aA91"), "v.0-+aA91")
 		default:
 			return gen.RawBytes(r, 12)
+		}
+	}
+	samples := 0
+	sample := func(format string, a ...any) {
+		if samples < 12 {
+			samples++
+			c.Sample(fmt.Sprintf(format, a...))
 		}
 	}
 	single := func(v string) {
@@ -239,6 +446,7 @@ func runC04(c *hx.Ctx) {
 		} else {
 			c.Count("invalid")
 		}
+		c.Count("shape:" + c04Shape(specParse(v)))
 		msg := c04Single(v)
 		c.Check("grammar+accessors", msg == "", "", c04In{"single", hexes(v)}, msg)
 	}
@@ -246,8 +454,12 @@ func runC04(c *hx.Ctx) {
 		c.Case("Compare", wire.L(wire.S(v), wire.S(w)), wire.Int(semver.Compare(v, w)))
 		c.Case("Max", wire.L(wire.S(v), wire.S(w)), wire.S(semver.Max(v, w)))
 		c.Count(fmt.Sprintf("compare=%d", semver.Compare(v, w)))
+		c.Count("decided-by:" + c04Branch(specParse(v), specParse(w)))
 		if semver.IsValid(v) && semver.IsValid(w) {
 			c.Nontrivial("p:" + v + "\x00" + w)
+			if v != w {
+				sample("Compare(%q, %q) = %d   Canonical: %q %q", v, w, semver.Compare(v, w), semver.Canonical(v), semver.Canonical(w))
+			}
 		}
 		msg := c04Pair(v, w)
 		c.Check("compare-spec+antisym+zero-iff-canonical", msg == "", "", c04In{"pair", hexes(v, w)}, msg)
@@ -275,18 +487,28 @@ func runC04(c *hx.Ctx) {
 	for i := 0; i < c.N(8000); i++ {
 		v := draw()
 		w := draw()
+		if r.Intn(4) != 0 {
+			w = c04Related(r, v)
+		}
+		if r.Intn(12) == 0 {
+			v, w = c04NumIdentPair(r)
+		}
 		if r.Intn(2) == 0 {
-			w = gen.RelatedVersion(r, v)
+			v, w = w, v
 		}
 		pair(v, w)
 	}
 	for i := 0; i < c.N(5000); i++ {
 		a := draw()
-		b := gen.RelatedVersion(r, a)
-		d := gen.RelatedVersion(r, b)
-		if r.Intn(3) == 0 {
+		b := c04Related(r, a)
+		d := c04Related(r, b)
+		switch r.Intn(6) {
+		case 0:
 			d = draw()
+		case 1:
+			d = c04Related(r, a)
 		}
+		c.Count("triple:" + fmt.Sprintf("%d%d", semver.Compare(a, b), semver.Compare(b, d)))
 		msg := c04Triple(a, b, d)
 		c.Check("transitive", msg == "", "", c04In{"triple", hexes(a, b, d)}, msg)
 	}
@@ -295,7 +517,7 @@ func runC04(c *hx.Ctx) {
 		list := make([]string, n)
 		for j := range list {
 			if j > 0 && r.Intn(2) == 0 {
-				list[j] = gen.RelatedVersion(r, list[r.Intn(j)])
+				list[j] = c04Related(r, list[r.Intn(j)])
 			} else {
 				list[j] = draw()
 			}
